@@ -150,15 +150,18 @@ func (tr *trans) initSym(name string) Term {
 	decl := fmt.Sprintf("(declare-const %s %s)", s, srt)
 	// memory safety of the entry heap: every reference stored in it denotes an object that already exists
 	n0 := q("$next@0")
+	// (only for objects that exist at entry: what the heaps hold at references not yet allocated is defined
+	// by the allocation - ours or, through its postcondition, a callee's)
+	g := fmt.Sprintf("(or (and (< 0 r) (< r %s)) (and (< 0 (fptr.base r)) (< (fptr.base r) %s)))", n0, n0)
 	switch tr.heapRefs[name] {
 	case "ptr":
-		decl += fmt.Sprintf("\n(assert (forall ((r Int)) (! (and (<= 0 (select %s r)) (< (select %s r) %s)) :pattern ((select %s r)))))", s, s, n0, s)
+		decl += fmt.Sprintf("\n(assert (forall ((r Int)) (! (=> %s (and (<= 0 (select %s r)) (< (select %s r) %s))) :pattern ((select %s r)))))", g, s, s, n0, s)
 	case "slice":
-		decl += fmt.Sprintf("\n(assert (forall ((r Int)) (! (and (<= 0 (sarr (select %s r))) (< (sarr (select %s r)) %s)) :pattern ((select %s r)))))", s, s, n0, s)
+		decl += fmt.Sprintf("\n(assert (forall ((r Int)) (! (=> %s (and (<= 0 (sarr (select %s r))) (< (sarr (select %s r)) %s))) :pattern ((select %s r)))))", g, s, s, n0, s)
 	case "arrptr":
-		decl += fmt.Sprintf("\n(assert (forall ((r Int) (i Int)) (! (and (<= 0 (select (select %s r) i)) (< (select (select %s r) i) %s)) :pattern ((select (select %s r) i)))))", s, s, n0, s)
+		decl += fmt.Sprintf("\n(assert (forall ((r Int) (i Int)) (! (=> %s (and (<= 0 (select (select %s r) i)) (< (select (select %s r) i) %s))) :pattern ((select (select %s r) i)))))", g, s, s, n0, s)
 	case "arrslice":
-		decl += fmt.Sprintf("\n(assert (forall ((r Int) (i Int)) (! (and (<= 0 (sarr (select (select %s r) i))) (< (sarr (select (select %s r) i)) %s)) :pattern ((select (select %s r) i)))))", s, s, n0, s)
+		decl += fmt.Sprintf("\n(assert (forall ((r Int) (i Int)) (! (=> %s (and (<= 0 (sarr (select (select %s r) i))) (< (sarr (select (select %s r) i)) %s))) :pattern ((select (select %s r) i)))))", g, s, s, n0, s)
 	}
 	if name != "$next" && tr.heapRefs[name] != "" {
 		tr.vc.declFun("state:$next", fmt.Sprintf("(declare-const %s Int)", n0))
